@@ -114,10 +114,24 @@ func runC10(c *rt.C) {
 	kv := (c.Index/3)%3 == 1
 	rev := (c.Index/3)%3 == 2
 	nKeys := pick(r, 1, 2, 5, 12, 40, 150, 600)
+	// every 25th case: more than 10000 physical items per shard, so the Visitor's iterators (refresh rate
+	// 10000) re-seek in the middle of a shard, on keys that have older and newer versions around them
+	large := c.Index%25 == 24
+	ho := HistOpt{NKeys: nKeys, Epochs: 2 + r.Intn(6), OpsPerEpoch: nKeys + r.Intn(2*nKeys+1), KeepProb: 0.6, Writers: 1 + r.Intn(3), DeleteBias: 35}
+	if large {
+		nKeys = 11000 + r.Intn(3000)
+		if mem == "pageguard" {
+			mem = "poison" // the page-guard arena holds 24k live blocks
+		}
+		ho = HistOpt{NKeys: nKeys, Epochs: 2 + r.Intn(2), OpsPerEpoch: 2 * nKeys, KeepProb: 0.9, Writers: 1 + r.Intn(3), DeleteBias: 35}
+	}
 	db := OpenDB(DBOpt{Mem: mem, KV: kv, Rev: rev})
-	h := BuildHistory(r, db, HistOpt{NKeys: nKeys, Epochs: 2 + r.Intn(6), OpsPerEpoch: nKeys + r.Intn(2*nKeys+1), KeepProb: 0.6, Writers: 1 + r.Intn(3), DeleteBias: 35})
+	h := BuildHistory(r, db, ho)
 	maxv, total := h.PhysicalVersions()
 	pairs := 8
+	if large {
+		pairs = 3
+	}
 	// every 2nd case: a churn goroutine inserts and (same-epoch) deletes newer versions of the keys
 	// while the visits run on the already created snapshots
 	churn := c.Index%2 == 1
@@ -154,6 +168,9 @@ func runC10(c *rt.C) {
 		for p := 0; p < pairs && !c.Failed(); p++ {
 			shards := pick(r, 1, 2, 3, 4, 7, runtime.NumCPU(), len(hs.Want)+1, len(hs.Want)+5, 64)
 			concurr := pick(r, 1, 2, 3, 8, 16)
+			if large {
+				shards = pick(r, 1, 1, 2, 3)
+			}
 			var errAt []int
 			if p%4 == 3 && len(hs.Want) > 0 {
 				errAt = append(errAt, r.Intn(len(hs.Want)))
@@ -218,6 +235,8 @@ func sizeClass(n int) string {
 		return "<10"
 	case n < 100:
 		return "<100"
+	case n > 10000:
+		return ">10000"
 	}
 	return ">=100"
 }
@@ -226,7 +245,7 @@ func init() {
 	rt.Register(&rt.Prop{
 		ID: "C10", Level: "exploration",
 		Technique: "runtime monitoring: callback event log checked for per-shard order, cross-shard partition order and multiset equality with the frozen model copy; injected callback errors",
-		Rule: "each case builds a seeded multi-version history (1-600 keys, snapshots kept open so pivots can be invisible versions) and visits every open snapshot with 8 random (shards ∈ {1,2,3,4,7,NumCPU,items+1,items+5,64}, concurrency ∈ {1,2,3,8,16}) pairs, every 4th with 1-2 injected callback errors, plus every error position for one small snapshot. " +
+		Rule: "each case builds a seeded multi-version history (1-600 keys, snapshots kept open so pivots can be invisible versions) and visits every open snapshot with 8 random (shards ∈ {1,2,3,4,7,NumCPU,items+1,items+5,64}, concurrency ∈ {1,2,3,8,16}) pairs, every 4th with 1-2 injected callback errors, plus every error position for one small snapshot. Every 25th case is large (11000-14000 keys, 2-3 epochs of 2x that many operations, 1-3 shards): each Visitor iterator refreshes (rate 10000) in the middle of its shard, among older and newer versions of the keys. " +
 			"evaluations = Visitor calls checked; distinct = (outcome incl. number of non-empty shards, shards>items?, concurrency, max physical versions per key, size class) tuples",
 		Assumptions: []string{"in every 2nd case one churn goroutine (owning its writer) inserts and deletes newer versions of the keys while the visits run; snapshot creation never overlaps a writer call", "non-termination is reported in two structural forms: a deadlock (every goroutine of the Visitor call parked on call-local synchronisation, identical in four consecutive goroutine-profile samples) and an endless visit (more than items+1000 callback invocations); any other hang ends as inconclusive via the watchdog"},
 		Cases: func(t string) int {
